@@ -14,40 +14,40 @@ def kahnDedupStep {κ} (acc : List (KNode κ)) (n : KNode κ) : List (KNode κ) 
   if acc.any (fun m => m.ev.eventID == n.ev.eventID) then acc else acc ++ [n]
 
 /-- the node list with duplicates (same event ID) removed, first occurrence kept -/
-def kahnNodes {κ} (nodes0 : List (KNode κ)) : List (KNode κ) := nodes0.foldl kahnDedupStep []
+def kNodes {κ} (nodes0 : List (KNode κ)) : List (KNode κ) := nodes0.foldl kahnDedupStep []
 
-def bump (deg : List (ID × Nat)) (id : ID) (by_ : Nat) : List (ID × Nat) :=
+def kBump (deg : List (ID × Nat)) (id : ID) (by_ : Nat) : List (ID × Nat) :=
   if (deg.find? (fun d => d.1 == id)).isSome then deg.map (fun d => if d.1 == id then (d.1, d.2 + by_) else d)
   else deg ++ [(id, by_)]
 
 def kahnInDeg {κ} (parents : Event → List ID) (nodes : List (KNode κ)) : List (ID × Nat) :=
-  nodes.foldl (fun deg n => (parents n.ev).foldl (fun d pid => bump d pid 1) (bump deg n.ev.eventID 0)) []
+  nodes.foldl (fun deg n => (parents n.ev).foldl (fun d pid => kBump d pid 1) (kBump deg n.ev.eventID 0)) []
 
 /-- lookup in an in-degree table -/
-def degOf (deg : List (ID × Nat)) (id : ID) : Option Nat := (deg.find? (fun d => d.1 == id)).map (·.2)
+def kDegOf (deg : List (ID × Nat)) (id : ID) : Option Nat := (deg.find? (fun d => d.1 == id)).map (·.2)
 
 def kahnZero {κ} (inDeg : List (ID × Nat)) (nodes : List (KNode κ)) : List (KNode κ) :=
-  nodes.filter (fun n => degOf inDeg n.ev.eventID == some 0)
+  nodes.filter (fun n => kDegOf inDeg n.ev.eventID == some 0)
 
 def kahnRemaining {κ} (inDeg : List (ID × Nat)) (nodes : List (KNode κ)) : List (KNode κ) :=
-  nodes.filter (fun n => !(degOf inDeg n.ev.eventID == some 0))
+  nodes.filter (fun n => !(kDegOf inDeg n.ev.eventID == some 0))
 
 def kahnOut {κ} (lt : κ → κ → Bool) (r : List (KNode κ) × List (KNode κ)) : List Event :=
   ((sortBy (fun a b => lt a.key b.key) r.1) ++ r.2).map (·.ev)
 
 theorem kahn_eq {κ} (lt : κ → κ → Bool) (parents : Event → List ID) (nodes0 : List (KNode κ)) :
     kahn lt parents nodes0 =
-      kahnOut lt (kahnLoop lt parents ((kahnNodes nodes0).length + 1)
-        (kahnRemaining (kahnInDeg parents (kahnNodes nodes0)) (kahnNodes nodes0))
-        (kahnInDeg parents (kahnNodes nodes0))
-        (sortBy (fun a b => lt a.key b.key) (kahnZero (kahnInDeg parents (kahnNodes nodes0)) (kahnNodes nodes0))) []) := rfl
+      kahnOut lt (kahnLoop lt parents ((kNodes nodes0).length + 1)
+        (kahnRemaining (kahnInDeg parents (kNodes nodes0)) (kNodes nodes0))
+        (kahnInDeg parents (kNodes nodes0))
+        (sortBy (fun a b => lt a.key b.key) (kahnZero (kahnInDeg parents (kNodes nodes0)) (kNodes nodes0))) []) := rfl
 
 /-- decrement every entry for `pid` -/
 def decMap (deg : List (ID × Nat)) (pid : ID) : List (ID × Nat) :=
   deg.map (fun d => if d.1 == pid then (d.1, d.2 - 1) else d)
 
 /-- the inner-fold step of `kahnLoop` (lambda copied verbatim) -/
-def decStep {κ} (acc : List (ID × Nat) × List (KNode κ) × List (KNode κ)) (pid : ID) :
+def kDecStep {κ} (acc : List (ID × Nat) × List (KNode κ) × List (KNode κ)) (pid : ID) :
     List (ID × Nat) × List (KNode κ) × List (KNode κ) :=
   let (deg, rem, ni) := acc
   let deg' := deg.map (fun d => if d.1 == pid then (d.1, d.2 - 1) else d)
@@ -58,15 +58,15 @@ def decStep {κ} (acc : List (ID × Nat) × List (KNode κ) × List (KNode κ)) 
     | none => (deg', rem, ni)
   else (deg', rem, ni)
 
-theorem decStep_eq {κ} (deg : List (ID × Nat)) (rem ni : List (KNode κ)) (pid : ID) :
-    decStep (deg, rem, ni) pid =
-      if degOf (decMap deg pid) pid == some 0 then
+theorem kDecStep_eq {κ} (deg : List (ID × Nat)) (rem ni : List (KNode κ)) (pid : ID) :
+    kDecStep (deg, rem, ni) pid =
+      if kDegOf (decMap deg pid) pid == some 0 then
         match rem.find? (fun n => n.ev.eventID == pid) with
         | some n => (decMap deg pid, rem.filter (fun m => m.ev.eventID != pid), ni ++ [n])
         | none => (decMap deg pid, rem, ni)
       else (decMap deg pid, rem, ni) := rfl
 
-theorem kahnLoop_zero {κ} (lt : κ → κ → Bool) (parents : Event → List ID) (rem : List (KNode κ)) (deg : List (ID × Nat))
+theorem kahnLoop_zero_eq {κ} (lt : κ → κ → Bool) (parents : Event → List ID) (rem : List (KNode κ)) (deg : List (ID × Nat))
     (ni graph : List (KNode κ)) : kahnLoop lt parents 0 rem deg ni graph = (rem, graph) := rfl
 
 theorem kahnLoop_succ {κ} (lt : κ → κ → Bool) (parents : Event → List ID) (fuel : Nat) (rem : List (KNode κ))
@@ -75,9 +75,9 @@ theorem kahnLoop_succ {κ} (lt : κ → κ → Bool) (parents : Event → List I
       match ni.reverse with
       | [] => (rem, graph)
       | node :: restRev =>
-        kahnLoop lt parents fuel ((parents node.ev).foldl decStep (deg, rem, restRev.reverse)).2.1
-          ((parents node.ev).foldl decStep (deg, rem, restRev.reverse)).1
-          (sortBy (fun a b => lt a.key b.key) ((parents node.ev).foldl decStep (deg, rem, restRev.reverse)).2.2)
+        kahnLoop lt parents fuel ((parents node.ev).foldl kDecStep (deg, rem, restRev.reverse)).2.1
+          ((parents node.ev).foldl kDecStep (deg, rem, restRev.reverse)).1
+          (sortBy (fun a b => lt a.key b.key) ((parents node.ev).foldl kDecStep (deg, rem, restRev.reverse)).2.2)
           (node :: graph) := rfl
 
 /-! ## De-duplication: first node per event ID -/
@@ -156,65 +156,65 @@ theorem kahnDedup_idNodup {κ} {l acc : List (KNode κ)} (h : KIdNodup acc) : KI
       obtain ⟨e, he, rfl⟩ := List.mem_map.mp hx
       rw [hy]; exact hn' e he
 
-theorem mem_kahnNodes {κ} {l : List (KNode κ)} {n : KNode κ} (h : n ∈ kahnNodes l) : n ∈ l := by
+theorem mem_kNodes {κ} {l : List (KNode κ)} {n : KNode κ} (h : n ∈ kNodes l) : n ∈ l := by
   rcases kahnDedup_mem (acc := []) h with h' | h'
   · cases h'
   · exact h'
 
-theorem kahnNodes_idNodup {κ} (l : List (KNode κ)) : KIdNodup (kahnNodes l) :=
+theorem kNodes_idNodup {κ} (l : List (KNode κ)) : KIdNodup (kNodes l) :=
   kahnDedup_idNodup (acc := []) (by simp [KIdNodup])
 
-theorem kahnNodes_ids {κ} {l : List (KNode κ)} {n : KNode κ} (h : n ∈ l) :
-    ∃ m ∈ kahnNodes l, m.ev.eventID = n.ev.eventID := kahnDedup_ids (acc := []) (Or.inr h)
+theorem kNodes_ids {κ} {l : List (KNode κ)} {n : KNode κ} (h : n ∈ l) :
+    ∃ m ∈ kNodes l, m.ev.eventID = n.ev.eventID := kahnDedup_ids (acc := []) (Or.inr h)
 
 /-- the event ID identifies the node within `U` -/
 def KId {κ} (U : KNode κ → Prop) : Prop := ∀ a b, U a → U b → a.ev.eventID = b.ev.eventID → a = b
 
-theorem mem_kahnNodes_of_mem {κ} {U : KNode κ → Prop} (hU : KId U) {l : List (KNode κ)} (hl : ∀ n ∈ l, U n)
-    {n : KNode κ} (h : n ∈ l) : n ∈ kahnNodes l := by
-  obtain ⟨m, hm, hid⟩ := kahnNodes_ids h
-  rw [← hU m n (hl m (mem_kahnNodes hm)) (hl n h) hid]; exact hm
+theorem mem_kNodes_of_mem {κ} {U : KNode κ → Prop} (hU : KId U) {l : List (KNode κ)} (hl : ∀ n ∈ l, U n)
+    {n : KNode κ} (h : n ∈ l) : n ∈ kNodes l := by
+  obtain ⟨m, hm, hid⟩ := kNodes_ids h
+  rw [← hU m n (hl m (mem_kNodes hm)) (hl n h) hid]; exact hm
 
-theorem kahnNodes_perm {κ} {U : KNode κ → Prop} (hU : KId U) {l l' : List (KNode κ)} (hl : ∀ n ∈ l, U n)
-    (hl' : ∀ n ∈ l', U n) (h : SameSet l l') : kahnNodes l ~ kahnNodes l' := by
-  refine SameSet.perm ?_ (kahnNodes_idNodup l).nodup (kahnNodes_idNodup l').nodup
+theorem kNodes_perm {κ} {U : KNode κ → Prop} (hU : KId U) {l l' : List (KNode κ)} (hl : ∀ n ∈ l, U n)
+    (hl' : ∀ n ∈ l', U n) (h : SameSet l l') : kNodes l ~ kNodes l' := by
+  refine SameSet.perm ?_ (kNodes_idNodup l).nodup (kNodes_idNodup l').nodup
   intro n
   constructor
-  · intro hn; exact mem_kahnNodes_of_mem hU hl' ((h n).mp (mem_kahnNodes hn))
-  · intro hn; exact mem_kahnNodes_of_mem hU hl ((h n).mpr (mem_kahnNodes hn))
+  · intro hn; exact mem_kNodes_of_mem hU hl' ((h n).mp (mem_kNodes hn))
+  · intro hn; exact mem_kNodes_of_mem hU hl ((h n).mpr (mem_kNodes hn))
 
 /-! ## In-degree tables as lookup functions -/
 
 /-- two tables that answer every lookup alike -/
-def DegEq (d d' : List (ID × Nat)) : Prop := ∀ x, degOf d x = degOf d' x
+def KDegEq (d d' : List (ID × Nat)) : Prop := ∀ x, kDegOf d x = kDegOf d' x
 
-theorem DegEq.refl (d : List (ID × Nat)) : DegEq d d := fun _ => rfl
-theorem DegEq.symm {d d' : List (ID × Nat)} (h : DegEq d d') : DegEq d' d := fun x => (h x).symm
-theorem DegEq.trans {a b c : List (ID × Nat)} (h : DegEq a b) (h' : DegEq b c) : DegEq a c := fun x => (h x).trans (h' x)
+theorem KDegEq.refl (d : List (ID × Nat)) : KDegEq d d := fun _ => rfl
+theorem KDegEq.symm {d d' : List (ID × Nat)} (h : KDegEq d d') : KDegEq d' d := fun x => (h x).symm
+theorem KDegEq.trans {a b c : List (ID × Nat)} (h : KDegEq a b) (h' : KDegEq b c) : KDegEq a c := fun x => (h x).trans (h' x)
 
-theorem degOf_nil (x : ID) : degOf [] x = none := rfl
+theorem kDegOf_nil (x : ID) : kDegOf [] x = none := rfl
 
-theorem degOf_cons (a : ID × Nat) (deg : List (ID × Nat)) (x : ID) :
-    degOf (a :: deg) x = if a.1 = x then some a.2 else degOf deg x := by
-  unfold degOf; rw [List.find?_cons]
+theorem kDegOf_cons (a : ID × Nat) (deg : List (ID × Nat)) (x : ID) :
+    kDegOf (a :: deg) x = if a.1 = x then some a.2 else kDegOf deg x := by
+  unfold kDegOf; rw [List.find?_cons]
   by_cases h : a.1 = x
   · simp [h]
   · have : (a.1 == x) = false := by simpa using h
     simp [this, h]
 
-theorem degOf_append (d d' : List (ID × Nat)) (x : ID) : degOf (d ++ d') x = (degOf d x).or (degOf d' x) := by
+theorem kDegOf_append (d d' : List (ID × Nat)) (x : ID) : kDegOf (d ++ d') x = (kDegOf d x).or (kDegOf d' x) := by
   induction d with
-  | nil => simp [degOf_nil]
-  | cons a as ih => rw [List.cons_append, degOf_cons, degOf_cons, ih]; split <;> simp
+  | nil => simp [kDegOf_nil]
+  | cons a as ih => rw [List.cons_append, kDegOf_cons, kDegOf_cons, ih]; split <;> simp
 
 /-- updating the values stored under `id` (every entry; the lookup sees the first) -/
-theorem degOf_update (g : Nat → Nat) (deg : List (ID × Nat)) (id x : ID) :
-    degOf (deg.map (fun d => if d.1 == id then (d.1, g d.2) else d)) x
-      = if x = id then (degOf deg x).map g else degOf deg x := by
+theorem kDegOf_update (g : Nat → Nat) (deg : List (ID × Nat)) (id x : ID) :
+    kDegOf (deg.map (fun d => if d.1 == id then (d.1, g d.2) else d)) x
+      = if x = id then (kDegOf deg x).map g else kDegOf deg x := by
   induction deg with
-  | nil => simp [degOf_nil]
+  | nil => simp [kDegOf_nil]
   | cons a as ih =>
-    rw [List.map_cons, degOf_cons, degOf_cons, ih]
+    rw [List.map_cons, kDegOf_cons, kDegOf_cons, ih]
     by_cases ha : a.1 = id
     · have : (a.1 == id) = true := by simpa using ha
       simp only [this, if_true]
@@ -229,42 +229,42 @@ theorem degOf_update (g : Nat → Nat) (deg : List (ID × Nat)) (id x : ID) :
         simp [hax, this]
       · simp only [hax, if_false, Bool.false_eq_true]
 
-theorem degOf_decMap (deg : List (ID × Nat)) (pid x : ID) :
-    degOf (decMap deg pid) x = if x = pid then (degOf deg x).map (· - 1) else degOf deg x :=
-  degOf_update (· - 1) deg pid x
+theorem kDegOf_decMap (deg : List (ID × Nat)) (pid x : ID) :
+    kDegOf (decMap deg pid) x = if x = pid then (kDegOf deg x).map (· - 1) else kDegOf deg x :=
+  kDegOf_update (· - 1) deg pid x
 
-theorem degOf_bump (deg : List (ID × Nat)) (id : ID) (by_ : Nat) (x : ID) :
-    degOf (bump deg id by_) x = if x = id then some ((degOf deg id).getD 0 + by_) else degOf deg x := by
-  unfold bump
-  have hs : (deg.find? (fun d => d.1 == id)).isSome = (degOf deg id).isSome := by unfold degOf; simp
+theorem kDegOf_kBump (deg : List (ID × Nat)) (id : ID) (by_ : Nat) (x : ID) :
+    kDegOf (kBump deg id by_) x = if x = id then some ((kDegOf deg id).getD 0 + by_) else kDegOf deg x := by
+  unfold kBump
+  have hs : (deg.find? (fun d => d.1 == id)).isSome = (kDegOf deg id).isSome := by unfold kDegOf; simp
   rw [hs]
   split
   · rename_i h
-    rw [degOf_update (· + by_)]
+    rw [kDegOf_update (· + by_)]
     by_cases hx : x = id
     · subst hx
-      cases hd : degOf deg x with
+      cases hd : kDegOf deg x with
       | none => simp [hd] at h
       | some v => simp
     · simp [hx]
   · rename_i h
-    have hn : degOf deg id = none := by simpa using h
-    rw [degOf_append, degOf_cons, degOf_nil]
+    have hn : kDegOf deg id = none := by simpa using h
+    rw [kDegOf_append, kDegOf_cons, kDegOf_nil]
     by_cases hx : x = id
     · subst hx; simp [hn]
     · have : ¬ id = x := fun h => hx h.symm
       simp [hx, this]
 
-theorem DegEq.decMap {d d' : List (ID × Nat)} (h : DegEq d d') (pid : ID) : DegEq (decMap d pid) (decMap d' pid) := by
-  intro x; rw [degOf_decMap, degOf_decMap, h x]
+theorem KDegEq.decMap {d d' : List (ID × Nat)} (h : KDegEq d d') (pid : ID) : KDegEq (decMap d pid) (decMap d' pid) := by
+  intro x; rw [kDegOf_decMap, kDegOf_decMap, h x]
 
-theorem DegEq.bump {d d' : List (ID × Nat)} (h : DegEq d d') (id : ID) (by_ : Nat) : DegEq (bump d id by_) (bump d' id by_) := by
-  intro x; rw [degOf_bump, degOf_bump, h x, h id]
+theorem KDegEq.kBump {d d' : List (ID × Nat)} (h : KDegEq d d') (id : ID) (by_ : Nat) : KDegEq (kBump d id by_) (kBump d' id by_) := by
+  intro x; rw [kDegOf_kBump, kDegOf_kBump, h x, h id]
 
-theorem bump_comm (d : List (ID × Nat)) (i j : ID) (a b : Nat) :
-    DegEq (bump (bump d i a) j b) (bump (bump d j b) i a) := by
+theorem kBump_comm (d : List (ID × Nat)) (i j : ID) (a b : Nat) :
+    KDegEq (kBump (kBump d i a) j b) (kBump (kBump d j b) i a) := by
   intro x
-  simp only [degOf_bump]
+  simp only [kDegOf_kBump]
   by_cases hij : i = j
   · subst hij
     by_cases hx : x = i
@@ -277,14 +277,14 @@ theorem bump_comm (d : List (ID × Nat)) (i j : ID) (a b : Nat) :
       · subst hxj; simp [hji]
       · simp [hxi, hxj]
 
-/-- the bump operations `kahnInDeg` performs, as a list -/
+/-- the kBump operations `kahnInDeg` performs, as a list -/
 def kahnOps {κ} (parents : Event → List ID) (nodes : List (KNode κ)) : List (ID × Nat) :=
   nodes.flatMap (fun n => (n.ev.eventID, 0) :: (parents n.ev).map (fun pid => (pid, 1)))
 
-def bumpOp (d : List (ID × Nat)) (op : ID × Nat) : List (ID × Nat) := bump d op.1 op.2
+def kBumpOp (d : List (ID × Nat)) (op : ID × Nat) : List (ID × Nat) := kBump d op.1 op.2
 
 theorem kahnInDeg_eq {κ} (parents : Event → List ID) (nodes : List (KNode κ)) :
-    kahnInDeg parents nodes = (kahnOps parents nodes).foldl bumpOp [] := by
+    kahnInDeg parents nodes = (kahnOps parents nodes).foldl kBumpOp [] := by
   unfold kahnInDeg kahnOps
   rw [List.foldl_flatMap]
   congr 1
@@ -292,27 +292,27 @@ theorem kahnInDeg_eq {κ} (parents : Event → List ID) (nodes : List (KNode κ)
   rw [List.foldl_cons, List.foldl_map]
   rfl
 
-theorem bumpFold_congr (ops : List (ID × Nat)) {d d' : List (ID × Nat)} (h : DegEq d d') :
-    DegEq (ops.foldl bumpOp d) (ops.foldl bumpOp d') := by
+theorem kBumpFold_congr (ops : List (ID × Nat)) {d d' : List (ID × Nat)} (h : KDegEq d d') :
+    KDegEq (ops.foldl kBumpOp d) (ops.foldl kBumpOp d') := by
   induction ops generalizing d d' with
   | nil => exact h
-  | cons op ops ih => rw [List.foldl_cons, List.foldl_cons]; exact ih (h.bump _ _)
+  | cons op ops ih => rw [List.foldl_cons, List.foldl_cons]; exact ih (h.kBump _ _)
 
-theorem bumpFold_perm {ops ops' : List (ID × Nat)} (hp : ops ~ ops') :
-    ∀ {d d' : List (ID × Nat)}, DegEq d d' → DegEq (ops.foldl bumpOp d) (ops'.foldl bumpOp d') := by
+theorem kBumpFold_perm {ops ops' : List (ID × Nat)} (hp : ops ~ ops') :
+    ∀ {d d' : List (ID × Nat)}, KDegEq d d' → KDegEq (ops.foldl kBumpOp d) (ops'.foldl kBumpOp d') := by
   induction hp with
   | nil => intro d d' h; exact h
-  | cons a _ ih => intro d d' h; rw [List.foldl_cons, List.foldl_cons]; exact ih (h.bump _ _)
+  | cons a _ ih => intro d d' h; rw [List.foldl_cons, List.foldl_cons]; exact ih (h.kBump _ _)
   | swap a b l =>
     intro d d' h
     simp only [List.foldl_cons]
-    exact bumpFold_congr l (((h.bump _ _).bump _ _).trans (bump_comm d' b.1 a.1 b.2 a.2))
-  | trans _ _ ih1 ih2 => intro d d' h; exact (ih1 h).trans (ih2 (DegEq.refl d'))
+    exact kBumpFold_congr l (((h.kBump _ _).kBump _ _).trans (kBump_comm d' b.1 a.1 b.2 a.2))
+  | trans _ _ ih1 ih2 => intro d d' h; exact (ih1 h).trans (ih2 (KDegEq.refl d'))
 
 /-- the in-degree table (as a lookup function) does not depend on the order of the nodes -/
 theorem kahnInDeg_perm {κ} (parents : Event → List ID) {nodes nodes' : List (KNode κ)} (hp : nodes ~ nodes') :
-    DegEq (kahnInDeg parents nodes) (kahnInDeg parents nodes') := by
+    KDegEq (kahnInDeg parents nodes) (kahnInDeg parents nodes') := by
   rw [kahnInDeg_eq, kahnInDeg_eq]
-  exact bumpFold_perm (hp.flatMap_right _) (DegEq.refl [])
+  exact kBumpFold_perm (hp.flatMap_right _) (KDegEq.refl [])
 
 end V.StateRes
